@@ -6,4 +6,11 @@ import CV.Model.Irc
 import CV.Drv.Util
 import CV.Drv.Line
 import CV.Drv.Irc
+import CV.Model.Core.Queue
+import CV.Model.Core.Value
+import CV.Model.Core.Types
+import CV.Model.Core.Machine
+import CV.Drv.Core
+import CV.Proofs.Line
+import CV.Proofs.Irc
 import CV.Props.C18
